@@ -7,6 +7,7 @@ import Cppcms.C01.HttpRoundtrip
 import Cppcms.C01.StringMap
 import Cppcms.C01.HttpAgree
 import Cppcms.C01.ViewRT
+import Cppcms.C01.PeerJudge
 /-!
 # C01 — property theorems
 
@@ -236,9 +237,10 @@ theorem parse_form_urlencoded_roundtrip (fs : List FormField) (hfs : ∀ f ∈ f
   have := parseForm_roundtrip fs hfs fuel [] hf
   simpa using this
 
-/-- `request::parse_cookies` round trip: every list of cookies with token names (not starting with `$`) and token
-or empty values, separated by `;` or `,` and any blanks/tabs, is delivered as the map the peer meant (first one
-wins for a repeated name) -/
+/-- `request::parse_cookies` round trip: every list of cookies with token names (not starting with `$`) and values
+sent as tokens (possibly empty) or as quoted strings (any bytes; `"` and `\` with a backslash, any other byte with
+or without), separated by `;` or `,` and any blanks/tabs, is delivered as the map the peer meant (first one wins
+for a repeated name) -/
 theorem parse_cookies_roundtrip (cs : List CookieItem) (hcs : ∀ c ∈ cs, c.ok) :
     parseCookies (encCookies cs) = cookiesMeant [] cs :=
   parseCookies_roundtrip cs hcs
@@ -378,10 +380,12 @@ example : ∃ (q : HttpPeer) (ls : List FLine),
       subst hp
       exact ⟨by decide, by decide⟩
 
-/-- non-vacuity of `FormField.ok` / `CookieItem.ok`: `a%20b=1&c=` and `sid=abc; t=` -/
+/-- non-vacuity of `FormField.ok` / `CookieItem.ok` (through its sound executable version): `a%20b=1&c=` and
+`sid=abc; t=; q="a\" \b"` -/
 example : (∀ f ∈ [({ name := [.lit 97, .esc 32 false false, .lit 98], value := [.lit 49] } : FormField),
                   { name := [.lit 99], value := [] }], f.ok) ∧
-    (∀ c ∈ [({ name := [115, 105, 100], value := [97, 98, 99] } : CookieItem), { name := [116], value := [] }], c.ok) := by
+    (∀ c ∈ [({ name := [115, 105, 100], value := [97, 98, 99] } : CookieItem), { name := [116], value := [] },
+            { name := [113], value := [97, 34, 32, 98], esc := some [false, true, false, true] }], c.ok) := by
   constructor
   · intro f hf
     simp only [List.mem_cons, List.not_mem_nil, or_false] at hf
@@ -399,7 +403,7 @@ example : (∀ f ∈ [({ name := [.lit 97, .esc 32 false false, .lit 98], value 
       subst hp; exact ⟨by simp [PctPiece.ok], by decide, by decide⟩
   · intro c hc
     simp only [List.mem_cons, List.not_mem_nil, or_false] at hc
-    rcases hc with rfl | rfl <;> exact ⟨by decide, by decide, by decide, by decide, by decide, by decide⟩
+    rcases hc with rfl | rfl | rfl <;> exact CookieItem.okB_sound (by decide)
 
 /-- non-vacuity of `WFLine`: `A: x,` CRLF HTAB `y` CRLF SP `z` (a TAB fold and a SP fold) -/
 example : WFLine { head := [65, 58, 32, 120, 44], tail := [[9, 121], [32, 122]] } :=
